@@ -912,6 +912,32 @@ func sConfigCodec(c *Ctx, rule string) {
 // candidate reads back as "no vote" and a second candidate of the same term is
 // granted.
 func sVoteIdentity(c *Ctx, rule string) {
+	// the candidate records its OWN vote under the header's Addr
+	// (electSelf: persistVote(term, req.RPCHeader.Addr)); the header therefore
+	// carries the encoded address for every protocol version – with an empty
+	// Addr the self vote is stored under an empty identity, reads back as "no
+	// vote", and the server grants a second candidate in the term it stood in
+	if hf := c.Fn(rule, "(*Raft).getRPCHeader"); hf != nil {
+		settersUnconditional(c, rule, "(*Raft).getRPCHeader", "RPCHeader", "ProtocolVersion", "ID", "Addr")
+		if af := c.P.LookupField("RPCHeader", "Addr"); af != nil {
+			n := 0
+			for _, w := range c.P.FieldWritesIn(hf, af) {
+				n++
+				v, _ := c.P.StoredValue(w.Instr, af)
+				d := c.P.D(v)
+				c.Check(rule, "getRPCHeader:addr-is-encoded-local-address", c.P.InstrPos(w.Instr), "Addr = trans.EncodePeer(LocalID, localAddr)", strings.Contains(d, ".EncodePeer(") && strings.Contains(d, "recv.localAddr"), "Addr = "+d, 1)
+			}
+			if n == 0 {
+				c.Bad(rule, "getRPCHeader:addr", c.P.Pos(hf.Pos()), "a store of RPCHeader.Addr", "none")
+			}
+		}
+	}
+	if ef := c.Fn(rule, "(*Raft).electSelf"); ef != nil {
+		for _, s := range c.P.CallsIn(ef, engine.Is("(*Raft).persistVote")) {
+			d := c.P.Arg(s.Instr, 1)
+			c.Check(rule, "electSelf:self-vote-identity", c.P.InstrPos(s.Instr), "the self vote is recorded under the request header's Addr (the identity peers' votes for this server are recorded under)", strings.HasSuffix(d, ".RPCHeader.Addr") || strings.HasSuffix(d, ".Addr"), "persistVote(_, "+d+")", 1)
+		}
+	}
 	fn := c.Fn(rule, "(*Raft).requestVote")
 	if fn == nil {
 		return
